@@ -736,3 +736,161 @@ Proof.
       split; [lia|]. split; [|exact Ha]. replace (i - k) with (S (i - S k)) by lia. exact Hn. }
   intros i a Hin. destruct (K rules 0 i a Hin) as [native [u [_ [Hn Ha]]]]. rewrite Nat.sub_0_r in Hn. eauto.
 Qed.
+
+(* ======================================================================================== *)
+(* Part E - holds_b is sound: what it accepts satisfies the property's clauses as Props      *)
+(* ======================================================================================== *)
+(* "the rule holds for the graph", for the concrete rule language *)
+Definition crule_holds (g : dg) (c : crule) : Prop :=
+  match c with
+  | CB b => cond b g
+  | CU _ (UConst o) => rejects o = false
+  | CU _ (UEdgesLe k fail) => length (edge_pairs g) <= k \/ rejects fail = false
+  end.
+
+Lemma o_edge_count_eq : forall g, o_edge_count (mk_roracle g) = length (edge_pairs g).
+Proof.
+  intros g. unfold o_edge_count, edge_pairs, nodes. cbn [mk_roracle ro_adj ro_n]. f_equal.
+  apply filter_ext_in. intros [p c] Hin. apply in_prod_iff in Hin. destruct Hin as [Hp Hc].
+  apply in_seq in Hp. apply in_seq in Hc. cbn [fst snd]. unfold adjm. rewrite mget_mk by lia. reflexivity.
+Qed.
+
+Lemma edge_pairs_spec : forall g, wf g -> forall p c, In (p, c) (edge_pairs g) <-> edge g c p.
+Proof.
+  intros g Hwf p c. unfold edge_pairs. rewrite filter_In, in_prod_iff, !in_nodes. cbn [fst snd].
+  rewrite memb_iff. unfold edge. split; [tauto|]. intros E. split; [|exact E].
+  split; [eapply Hwf; exact E|eapply edge_src_lt; exact E].
+Qed.
+
+Lemma NoDup_app_intro : forall {A} (a b : list A),
+  NoDup a -> NoDup b -> (forall x, In x a -> In x b -> False) -> NoDup (a ++ b).
+Proof.
+  intros A a b Ha Hb Hd. induction Ha as [|x a Hx Ha IH]; [exact Hb|].
+  simpl. constructor.
+  - intros Hin. apply in_app_or in Hin. destruct Hin as [Hin|Hin]; [exact (Hx Hin)|].
+    apply (Hd x); [left; reflexivity|exact Hin].
+  - apply IH. intros y Hy1 Hy2. apply (Hd y); [right; exact Hy1|exact Hy2].
+Qed.
+
+Lemma edge_pairs_NoDup : forall g, NoDup (edge_pairs g).
+Proof.
+  intros g. unfold edge_pairs. apply NoDup_filter.
+  assert (K : forall (l1 l2 : list nat), NoDup l1 -> NoDup l2 -> NoDup (list_prod l1 l2)).
+  { induction l1 as [|a l1 IH]; intros l2 H1 H2; [constructor|].
+    inversion H1 as [|? ? Ha H1']; subst. cbn [list_prod]. apply NoDup_app_intro.
+    - clear -H2. induction H2 as [|y l2 Hy H2 IH2]; [constructor|]. cbn [map]. constructor; [|exact IH2].
+      intros Hin. apply in_map_iff in Hin. destruct Hin as [z [E Hz]]. injection E as ->. exact (Hy Hz).
+    - apply IH; assumption.
+    - intros [x y] Hin1 Hin2. apply in_map_iff in Hin1. destruct Hin1 as [z [E _]]. injection E as <- <-.
+      apply in_prod_iff in Hin2. destruct Hin2 as [Hin2 _]. contradiction. }
+  apply K; apply seq_NoDup.
+Qed.
+
+Lemma o_rule_holds_iff : forall g c, wf g -> (o_rule_holds (mk_roracle g) c = true <-> crule_holds g c).
+Proof.
+  intros g c Hwf. destruct c as [b|native [o|k fail]]; cbn [o_rule_holds crule_holds].
+  - apply o_cond_iff. exact Hwf.
+  - apply negb_true_iff.
+  - rewrite orb_true_iff, negb_true_iff, Nat.leb_le, o_edge_count_eq. reflexivity.
+Qed.
+
+(* clause 1 of holds_l: when no configured user rule raises a foreign exception, the observed
+   verdict is Accept exactly if every configured rule holds, and it is a boolean unless raising
+   was requested (then VerificationError is the only other possibility) *)
+Theorem holds_verdict_sound : forall ad rf rules g ob, wf g ->
+  nth 0 (holds_l ad rf rules g ob) false = true ->
+  existsb (c_raises_other (mk_roracle g)) rules = false ->
+  (ob_verdict ob = Accept <-> forall c, In c rules -> crule_holds g c) /\
+  (ob_verdict ob = Accept \/ ob_verdict ob = Reject \/ (rf = true /\ ob_verdict ob = RaiseVerification)).
+Proof.
+  intros ad rf rules g ob Hwf H HU. unfold holds_l, holds_lo in H. cbn [nth] in H. rewrite HU in H. simpl in H.
+  assert (A : forallb (o_rule_holds (mk_roracle g)) rules = true <-> forall c, In c rules -> crule_holds g c).
+  { rewrite forallb_forall. split; intros K c Hc; apply (o_rule_holds_iff g c Hwf); apply K; exact Hc. }
+  destruct (ob_verdict ob).
+  - split; [|auto]. split; [intros _; apply A; exact H|reflexivity].
+  - split; [|auto]. split; [discriminate|]. intros K. apply A in K. rewrite K in H. discriminate.
+  - apply andb_true_iff in H. destruct H as [Hrf H]. split; [|auto].
+    split; [discriminate|]. intros K. apply A in K. rewrite K in H. discriminate.
+  - discriminate.
+Qed.
+
+(* clause 2 of holds_l: what a recorded argument must look like *)
+Definition arg_is_internal (g : dg) (a : arg) : Prop := a = AOpt true g.
+
+Definition arg_is_restored (ad : adapter) (g : dg) (a : arg) : Prop :=
+  match ad with
+  | AdIdentity => a = AOpt true g                       (* the same object *)
+  | AdDirect => a = AOpt false g                        (* a copy with the same structure *)
+  | AdNx => exists es, a = ANx (length g) es /\ NoDup es /\ forall p c, In (p, c) es <-> edge g c p
+  end.
+
+Lemma leqb_eq : forall {A} (e : A -> A -> bool), (forall x y, e x y = true -> x = y) ->
+  forall l r, leqb e l r = true -> l = r.
+Proof.
+  intros A e He. induction l as [|a l IH]; intros [|b r] H; simpl in H; try discriminate; [reflexivity|].
+  apply andb_true_iff in H. destruct H as [H1 H2]. f_equal; [apply He; exact H1|apply IH; exact H2].
+Qed.
+
+Lemma dg_eqb_eq : forall a b, dg_eqb a b = true -> a = b.
+Proof.
+  unfold dg_eqb. apply leqb_eq. apply leqb_eq. intros x y H. apply Nat.eqb_eq. exact H.
+Qed.
+
+Lemma rp_pair_eqb_iff : forall a b : nat * nat, pair_eqb a b = true <-> a = b.
+Proof.
+  intros [a1 a2] [b1 b2]. unfold pair_eqb. cbn [fst snd]. rewrite andb_true_iff, !Nat.eqb_eq. split.
+  - intros [-> ->]. reflexivity.
+  - intros E. injection E as -> ->. auto.
+Qed.
+
+Lemma rp_nodup_pairs_b : forall l, nodup_pairs_b l = true -> NoDup l.
+Proof.
+  induction l as [|x l IH]; intros H; [constructor|]. simpl in H. apply andb_true_iff in H. destruct H as [H1 H2].
+  constructor; [|apply IH; exact H2]. intros Hin. apply negb_true_iff in H1.
+  assert (T : existsb (pair_eqb x) l = true).
+  { apply existsb_exists. exists x. split; [exact Hin|apply rp_pair_eqb_iff; reflexivity]. }
+  congruence.
+Qed.
+
+Theorem o_arg_ok_sound : forall g ad native a, wf g ->
+  o_arg_ok (mk_roracle g) ad native g a = true ->
+  if native then arg_is_internal g a else arg_is_restored ad g a.
+Proof.
+  intros g ad native a Hwf H. destruct a as [same g'|n es]; cbn [o_arg_ok] in H.
+  - apply andb_true_iff in H. destruct H as [Hg Hs]. apply dg_eqb_eq in Hg. subst g'.
+    destruct native; [unfold arg_is_internal; subst same; reflexivity|].
+    destruct ad; cbn [arg_is_restored]; [subst same; reflexivity| |discriminate].
+    apply negb_true_iff in Hs. subst same. reflexivity.
+  - repeat (apply andb_true_iff in H; destruct H as [H ?]).
+    apply negb_true_iff in H. subst native. destruct ad; try discriminate. cbn [arg_is_restored].
+    match goal with Hn : Nat.eqb n _ = true |- _ => apply Nat.eqb_eq in Hn; cbn [mk_roracle ro_n] in Hn; subst n end.
+    match goal with Hc : Nat.eqb (length es) _ = true |- _ => apply Nat.eqb_eq in Hc; rewrite o_edge_count_eq in Hc; rename Hc into Hlen end.
+    match goal with Hd : nodup_pairs_b es = true |- _ => apply rp_nodup_pairs_b in Hd; rename Hd into Hnd end.
+    match goal with Hf : forallb _ es = true |- _ => rename Hf into Hsub end.
+    exists es. split; [reflexivity|]. split; [exact Hnd|].
+    assert (I1 : incl es (edge_pairs g)).
+    { intros [p c] Hin. rewrite forallb_forall in Hsub. specialize (Hsub _ Hin). cbn [fst snd mk_roracle ro_adj] in Hsub.
+      apply (edge_pairs_spec g Hwf). apply (mget_adjm g Hwf). exact Hsub. }
+    assert (I2 : incl (edge_pairs g) es).
+    { apply NoDup_length_incl; [exact Hnd|lia|exact I1]. }
+    intros p c. rewrite <- (edge_pairs_spec g Hwf). split; [apply I1|apply I2].
+Qed.
+
+Theorem holds_args_sound : forall ad rf rules g ob, wf g ->
+  nth 1 (holds_l ad rf rules g ob) false = true ->
+  forall i a, In (i, a) (ob_calls ob) ->
+  exists native u, nth_error rules i = Some (CU native u) /\
+                   if native then arg_is_internal g a else arg_is_restored ad g a.
+Proof.
+  intros ad rf rules g ob Hwf H i a Hin. unfold holds_l, holds_lo in H. cbn [nth] in H.
+  rewrite forallb_forall in H. specialize (H _ Hin). cbn [fst snd] in H.
+  destruct (nth_error rules i) as [[b|native u]|] eqn:E; try discriminate.
+  exists native, u. split; [reflexivity|]. apply (o_arg_ok_sound g ad native a Hwf H).
+Qed.
+
+(* the model's own restored graphs satisfy that description *)
+Theorem restore_of_is_restored : forall ad g, wf g -> arg_is_restored ad g (restore_of ad g).
+Proof.
+  intros ad g Hwf. destruct ad; cbn [arg_is_restored restore_of]; try reflexivity.
+  exists (edge_pairs g). split; [reflexivity|]. split; [apply edge_pairs_NoDup|apply (edge_pairs_spec g Hwf)].
+Qed.
